@@ -219,6 +219,19 @@ pub fn run(ctx: &RunCtx) -> i32 {
             shared.merge(r);
         });
     }
+    // decoy values (menu::decoy_blobs) in front of the FINGERPRINT tails, sparse walk
+    menu::decoy_blobs().par_chunks(16).for_each(|ch| {
+        let kk = Keyed { spec: &spec, subject: &subj, raw: &raw };
+        let mut r = Report::new();
+        for (ix, b) in ch.iter().enumerate() {
+            let t = &tails[ix % tails.len()];
+            let mut attrs = vec![L::Data(b.clone())];
+            attrs.extend(t.clone());
+            check_msg(&menu::lmsg(1, 2, [0x47; 12], attrs), &kk, 17, &mut r);
+        }
+        r.sym("decoy-values");
+        shared.merge(r);
+    });
     let mut rep = shared.into_inner();
     crate::e3::c10_client::run(ctx, &mut rep);
     rep.outcome("fingerprint-accepted-iff-untouched");
@@ -228,9 +241,9 @@ pub fn run(ctx: &RunCtx) -> i32 {
         rep,
         Finish {
             level: "fault_enumeration",
-            rule: format!("codec: every single-attribute message of the full menu and the empty body x 4 tails containing FINGERPRINT (and x 10 headers for the empty body), every ordered pair over the {}-entry (<=64-byte values) menu (quick: one rotating tail per pair): wire bytes == reference (independent CRC-32 XOR 0x5354554e over the RFC input), accepted untouched, and after every single-bit fault at every bit and every byte := ^FF / +1 / 00 / FF at every byte never accepted as carrying a valid FINGERPRINT (acceptance = validating decoder returns it OR get_input_text+validate is true). Plus one DATA blob of every length 0..=300 (thorough 1100) + FINGERPRINT with the full walk, and the deep messages of C01 x 2 tails with a sparse walk (first 24 bytes, last 40 bytes, every 251st byte; quick tier: one alternating tail). Plus the offset family (FINGERPRINT alone / after MI behind a filler at every 4-aligned body offset 0..=4200 (thorough 16,400), around multiples of 4096 (1024), every offset 65,300..=65,524; walk at the first 24, last 40 and every 509th byte). For one message in 16 the untouched and a corrupted copy are also decoded by every construction route of the eight validating decoder configurations. client: see coverage.client. Non-trivial = message whose whole walk passed", menu_v.len()),
+            rule: format!("codec: every single-attribute message of the full menu and the empty body x 4 tails containing FINGERPRINT (and x 10 headers for the empty body), every ordered pair over the {}-entry (<=64-byte values) menu (quick: one rotating tail per pair): wire bytes == reference (independent CRC-32 XOR 0x5354554e over the RFC input), accepted untouched, and after every single-bit fault at every bit and every byte := ^FF / +1 / 00 / FF at every byte never accepted as carrying a valid FINGERPRINT (acceptance = validating decoder returns it OR get_input_text+validate is true). Plus one DATA blob of every length 0..=300 (thorough 1100) + FINGERPRINT with the full walk, and the deep messages of C01 x 2 tails with a sparse walk (first 24 bytes, last 40 bytes, every 251st byte; quick tier: one alternating tail). Plus the offset family (FINGERPRINT alone / after MI behind a filler at every 4-aligned body offset 0..=4200 (thorough 16,400), around multiples of 4096 (1024), every offset 65,300..=65,524; walk at the first 24, last 40 and every 509th byte). Decoy values (DATA blobs imitating integrity / fingerprint attribute headers at every word of their last 48 bytes, singly and in pairs) in front of the four tails, sparse walk. For one message in 16 the untouched and a corrupted copy are also decoded by every construction route of the eight validating decoder configurations. client: see coverage.client. Non-trivial = message whose whole walk passed", menu_v.len()),
             assumptions: vec!["CRC-32 detects all single-bit and single-byte errors by construction; the walk checks the plumbing (input range, length adjustment, XOR constant, attribute lookup)".into()],
-            required_symbols: vec!["accepted-untampered", "fault-walks", "singles", "pairs", "length-sweep", "deep-messages", "offset-family", "decoder-construction-routes", "client-packet-ends-in-valid-fingerprint", "client-rejected-bad-or-missing-fingerprint", "client-completed-by-good-reply", "misplaced", "one-bit-wrong", "absent", "wrong-then-decoy", "wrong-then-second-fingerprint"],
+            required_symbols: vec!["accepted-untampered", "fault-walks", "singles", "pairs", "length-sweep", "deep-messages", "offset-family", "decoder-construction-routes", "decoy-values", "client-packet-ends-in-valid-fingerprint", "client-rejected-bad-or-missing-fingerprint", "client-completed-by-good-reply", "misplaced", "one-bit-wrong", "absent", "wrong-then-decoy", "wrong-then-second-fingerprint", "client-add-remove-collections"],
             min_outcomes: 2,
             exhaustive: true,
             bounds: json!({"menu": menu_v.len(), "tails": 4}),
